@@ -83,8 +83,12 @@ where
                     should_inject_latency = latency_roll < config.latency_rate;
 
                     if should_inject_latency {
-                        let min_ms = config.min_latency.as_millis() as u64;
-                        let max_ms = config.max_latency.as_millis() as u64;
+                        // Saturate: `as u64` would wrap bounds of 2^64 ms or more
+                        // to small values, far below the configured minimum
+                        let min_ms =
+                            u64::try_from(config.min_latency.as_millis()).unwrap_or(u64::MAX);
+                        let max_ms =
+                            u64::try_from(config.max_latency.as_millis()).unwrap_or(u64::MAX);
                         let delay_ms = if max_ms > min_ms {
                             rng.random_range(min_ms..=max_ms)
                         } else {
